@@ -177,6 +177,48 @@ def name_backtrack_jobs(ctx, n):
     return jobs
 
 
+def trykey_jobs(ctx, n, tag="C02"):
+    """one container that carries a parse action / condition with call_during_try (so its own actions run in trial parses)
+    over children whose ORDINARY actions change the tokens, tried at one location first as a trial (first pass of Or /
+    Each, a lookahead, a stop_on check, SkipTo's scan) and then for real: the trial's result (children's actions not run)
+    must not be served for the real parse"""
+    jobs = []
+    for i in range(n):
+        r = random.Random(f"{tag}-{ctx.seed}-tk-{i}")
+        chg = [["const", "K"], ["dup"], ["app", "Z"], ["rev"], ["drop"]]
+        prog = [["n", "Word", "01"], ["w", "Word", "ab"], ["_", "action", "n", r.choice(chg)]]
+        if r.random() < 0.6:
+            prog.append(["_", "action", "w", r.choice(chg)])
+        body = r.choice([["c0", "+", "n", "n"], ["c0", "+", "n", "w"], ["c0", "Group", "n"], ["c0", "OneOrMore", "n"],
+                         ["c0", "+", "w", "n"]])
+        prog.append(body)
+        if r.random() < 0.5:
+            prog += [["_", "condition", "c0", True], ["_", "call_during_try", "c0"]]
+        else:
+            prog += [["_", "action", "c0", ["none"]], ["_", "call_during_try", "c0"]]
+        shape = r.choice(["or", "or", "each", "followed", "notany", "stop", "skipto"])
+        prog.append(["x", "Word", "ab01"])
+        if shape == "or":
+            prog.append(["root", "^", "c0", "x"] if r.random() < 0.5 else ["root", "^", "x", "c0"])
+        elif shape == "each":
+            prog += [["y", "Literal", "+"], ["root", "&", "c0", "y"]]
+        elif shape == "followed":
+            prog += [["f", "FollowedBy", "c0"], ["root", "+", "f", "c0"]]
+        elif shape == "notany":
+            prog += [["y", "Literal", "+"], ["f", "~", "y"], ["root", "+", "f", "c0"]]
+        elif shape == "stop":
+            prog += [["y", "Literal", "+"], ["z", "ZeroOrMore", "y", "c0"], ["root", "+", "z", "c0"]]
+        else:
+            prog += [["root", "SkipTo", "c0", {"include": True, "fail_on": None, "ignore": None}]]
+        if r.random() < 0.3:
+            prog.append(["rr", "OneOrMore", "root"])
+            root = "rr"
+        else:
+            root = "root"
+        jobs.append(dict(prog=prog, root=root, inputs=["  01 10", "01 ab", "ab 01", "+ 01 1", "+ + 0 1 ab", "01", "0 1 + a", "a"]))
+    return jobs
+
+
 def prekey_jobs(ctx, n):
     """one element object whose pre-parse matters although it does not skip whitespace (LineStart overrides preParse; a
     leave_whitespace()d element with ignorables still skips those) tried at ONE location both without pre-parse (first
@@ -264,7 +306,8 @@ def corpus_jobs():
     return out
 
 
-def run_oracle(ctx, stream, jobs, job_fn=None):
+def run_oracle(ctx, stream, jobs, job_fn=None, what="packrat changes an outcome",
+               theorem="PP.Parse.packrat_transparent / message+aliasing oracle"):
     res = common.pmap(job_fn or oracle_job, jobs)
     n = sum(r[0] for r in res)
     fails = sum(r[2] for r in res)
@@ -273,8 +316,8 @@ def run_oracle(ctx, stream, jobs, job_fn=None):
                     outcomes={"calls": n, "base-raised": fails, "mismatch": len(bad)},
                     samples=[{"prog": jobs[0]["prog"], "root": jobs[0]["root"], "input": jobs[0]["inputs"][0]}] if jobs else [])
     for m in bad[:3]:
-        ctx.fail_input("packrat changes an outcome", {k: m[k] for k in ("prog", "root", "input", "entry", "opts", "mutate", "mode", "history") if k in m},
-                       m["expected"], m["actual"], theorem="PP.Parse.packrat_transparent / message+aliasing oracle",
+        ctx.fail_input(what, {k: m[k] for k in ("prog", "root", "input", "entry", "opts", "mutate", "mode", "history") if k in m},
+                       m["expected"], m["actual"], theorem=theorem,
                        how="build prog with harness.gram.build, enable_packrat(mode[1]) vs disable_memoization()")
     return bad
 
@@ -313,6 +356,7 @@ def run(ctx):
     # the memo-aliasing templates of C03 (names through a shared entry, messages rewritten by set_name'd wrappers /
     # MatchFirst, trial parses observed by a call_during_try condition) are hazards of the packrat cache as well
     run_oracle(ctx, "oracle:aliasing-templates", c03.template_jobs(ctx, ctx.budget(450, 4500) * mult))
+    run_oracle(ctx, "oracle:trial-vs-real-key", trykey_jobs(ctx, ctx.budget(300, 3000) * mult))
     run_oracle(ctx, "oracle:preparse-key", prekey_jobs(ctx, ctx.budget(300, 3000) * mult))
     run_oracle(ctx, "oracle:stale-cache-history", stale_jobs(ctx, ctx.budget(60, 600) * mult), job_fn=stale_job)
     run_oracle(ctx, "oracle:names", gen_jobs(ctx, "on", ctx.budget(700, 7000) * mult, dict(names=0.45, p_reuse=0.7), 5))
